@@ -1,5 +1,7 @@
 /* simcore implementation, see sim.h */
+#ifndef _GNU_SOURCE
 #define _GNU_SOURCE
+#endif
 #include "sim.h"
 
 #include <stdlib.h>
@@ -143,6 +145,7 @@ static struct {
 } S;
 
 int sim_verbose;
+static bool fixed_choices;
 extern void (*sim_point_observer)(int kind, const volatile void *addr);
 
 /* stack cache: stacks are reused across runs */
@@ -252,6 +255,7 @@ void sim_begin(uint64_t seed, struct sim_tape *tape, bool replay)
     S.eintr_per1024 = 0;
     sim_point_observer = NULL;
     sim_point_enter = NULL;
+    fixed_choices = false;
     fd_reset();
     sim_set_strategy(-1, 200);
 }
@@ -317,9 +321,11 @@ static bool tape_get(uint32_t *value)
     return true;
 }
 
+void sim_set_fixed_choices(bool on) { fixed_choices = on; }
+
 uint32_t sim_choose(int kind, uint32_t n, uint32_t num, uint32_t den)
 {
-    if (n <= 1)
+    if (n <= 1 || fixed_choices)
         return 0;
     uint32_t v = 0;
     if (S.replay) {
